@@ -45,6 +45,9 @@ FILES = {  # file -> (weight, checks in the order they are tried)
  "model/DataAccessLayer.go": (4, "C04 C05 C14 C13"),
  "builder/RuleBuilder.go": (3, "C17 C16 C20 C09"),
  "antlr/GruleParserV3Listener.go": (8, "C17 C18 C05 C20 C09"),
+ "pkg/reflectools.go": (8, "C04 C05 C19 C14 C13"),
+ "antlr/ParserCommon.go": (4, "C17 C05 C18 C20"),
+ "ast/Salience.go": (1, "C12 C09 C17"),
 }
 
 def sh(cmd, cwd=None, timeout=1800):
